@@ -25,7 +25,7 @@ def contract(cmd, o):
     if o["timeout"]:
         return "hang"
     if o["rc"] not in (0, 1):
-        return "crash:rc=%s" % o["rc"]
+        return "crash:rc=%s" % o["rc"]         # (clidrv.run maps every ordinary non-zero status to 1: what is left is a panic / signal)
     if cmd == "check":
         if (o["rc"] == 0) != o["ok"]:
             return "exit-vs-OK"
@@ -36,6 +36,52 @@ def contract(cmd, o):
         if o["rc"] != 0 and o["ok_somewhere"]:
             return "failure-prints-OK"
     return None
+
+
+def many_diagnostics(rep, cov):
+    """the contract for sets with MANY problems (255, 256, 257, 512, 1000 files with one syntax error each, and one file with
+    that many invalid characters): still a non-zero exit status, no OK, coded diagnostics - however the status is computed"""
+    import shutil
+    wd = vlib.workdir("c13_many")
+    jobs = []
+    for n in (255, 256, 257, 512, 1000):
+        d = os.path.join(wd, "d%d" % n)
+        shutil.rmtree(d, ignore_errors=True)
+        os.makedirs(d)
+        with open(os.path.join(d, "main.st"), "w") as f:
+            f.write(clidrv.file_text("v1", "V", None))
+        for i in range(n):
+            with open(os.path.join(d, "u%04d.st" % i), "w") as f:
+                f.write("FUNCTION_BLOCK U%04d\nVAR x : INT; END_VAR\nx := ;\nEND_FUNCTION_BLOCK\n" % i)
+        jobs.append(("check", n, [d]))
+        jobs.append(("echo", n, [d]))
+        p = os.path.join(wd, "junk%d.st" % n)
+        with open(p, "w") as f:
+            f.write("FUNCTION_BLOCK J\nVAR x : INT; END_VAR\n" + "@ " * n + "\nEND_FUNCTION_BLOCK\n")
+        jobs.append(("tokenize", n, [p]))
+        jobs.append(("check", n, [p]))
+    for cmd, n, args in jobs:
+        r = vlib.run_cli([cmd] + args, timeout=300)
+        ndiag = len(vlib.parse_cli_diags(r["stderr"]))
+        ok_line = "OK" in r["stdout"].splitlines()[-1:] if cmd != "echo" else False
+        sig = None
+        if r.get("timeout"):
+            sig = "hang"
+        elif r["rc"] == 0:
+            sig = "exit-status-0-with-%s-problems" % ("256k" if n % 256 == 0 else "many")
+        elif r["rc"] in (101, 134, 139) or r["rc"] < 0:
+            sig = "crash:rc=%s" % r["rc"]
+        elif ok_line:
+            sig = "failure-prints-OK"
+        elif ndiag == 0:
+            sig = "failure-without-coded-diagnostic"
+        if sig:
+            rep.add("many-diagnostics:%s:%s" % (cmd, sig), labels={cmd, "many-diagnostics"}, detail={"problems_in_the_set": n, "rc": r["rc"], "coded_diagnostics": ndiag},
+                    replay={"cmd": cmd, "files": "%d files 'FUNCTION_BLOCK Uk VAR x : INT; END_VAR x := ; END_FUNCTION_BLOCK' / one file with %d '@'" % (n, n)})
+    for n in (255, 256, 257, 512, 1000):
+        shutil.rmtree(os.path.join(wd, "d%d" % n), ignore_errors=True)
+    cov["many_diagnostics_runs"] = len(jobs)
+    cov["traces_validated_against_impl"] += len(jobs)
 
 
 def verbose_invocations(rep, cov, root, expect_of):
@@ -199,6 +245,7 @@ def main():
                         detail={"args": list(args), "check": sorted(ref), cmd: sorted(got)},
                         replay={"cmd": cmd, "args": [clidrv.path_of(a) for a in args]})
     cov["cross_command_position_comparisons"] = ncross
+    many_diagnostics(rep, cov)
     verbose_invocations(rep, cov, root, expect_of=lambda k: expect.get(k))
     long_invocations(rep, cov, root, tier)
     cov["invocations"] = len(keys)
